@@ -47,7 +47,7 @@ ASSUMPTIONS = [
 ]
 MIN_DISTINCT = {"quick": 15000, "thorough": 250000}
 TIME = {"quick": 45, "thorough": 600}
-SOURCES = ["bytes", "str", "path", "filename", "fileobj", "lxml-tree", "lxml-element", "et-tree", "et-element", "lxml-inner-element", "et-inner-element"]
+SOURCES = ["bytes", "str", "path", "filename", "fileobj", "lxml-tree", "lxml-element", "et-tree", "et-element", "lxml-inner-element", "et-inner-element", "et-tree-with-comments"]
 
 
 def marks_for(loaded, obj, cfg, xml):
@@ -160,6 +160,11 @@ def parse_source(data: bytes, clazz, handler, kind, tmpdir):
             return p.parse(ET.ElementTree(ET.fromstring(data)), clazz)
         if kind == "et-element":
             return p.parse(ET.fromstring(data), clazz)
+        if kind == "et-tree-with-comments":
+            # a tree that keeps comments and processing instructions as nodes (they split the character data)
+            builder = ET.XMLParser(target=ET.TreeBuilder(insert_comments=True, insert_pis=True))
+            builder.feed(data)
+            return p.parse(builder.close(), clazz)
         if kind in ("lxml-inner-element", "et-inner-element"):
             # selective parsing: the document is one element of a larger tree, with siblings and tail text around it
             if kind.startswith("et-"):
